@@ -22,12 +22,16 @@ import (
 )
 
 type flagsVec struct {
-	Cls    string   `json:"cls"`
-	Flags  []string `json:"flags"`
-	Type   string   `json:"type"`
-	Append []string `json:"append"`
-	Parse  []string `json:"parse"`
-	May    []string `json:"may"`
+	Cls      string   `json:"cls"`
+	Flags    []string `json:"flags"`
+	Type     string   `json:"type"`
+	Append   []string `json:"append"`
+	Parse    []string `json:"parse"`
+	May      []string `json:"may"`
+	Fault    string   `json:"fault,omitempty"`
+	Place    string   `json:"place,omitempty"`
+	Fails    bool     `json:"fails,omitempty"`
+	InDomain bool     `json:"indomain,omitempty"`
 }
 
 type c14Case struct {
@@ -488,6 +492,94 @@ func c14Parity(c *Ctx, k c14Case, v any) {
 	}
 }
 
+// c14Fault: one row of part 3 of spec/JsonFlags.tla: a value with one fault (or none) in one place, a flag subset, and
+// whether Append fails
+type c14FaultyText struct{}
+
+func (c14FaultyText) MarshalText() ([]byte, error) { return nil, fmt.Errorf("no text") }
+
+func c14FaultValue(fault string) (any, bool) {
+	switch fault {
+	case "none":
+		return map[string]any{"k": []any{1.5, "<s>", nil}, "a": json.RawMessage(` {"r" : [1]} `), "m": c14OutM{" [1 , 2] "}}, true
+	case "raw":
+		return json.RawMessage(`{"x":`), true
+	case "method-output":
+		return c14OutM{`{"k":1}}`}, true
+	case "method-error":
+		return failingMarshaler{}, true
+	case "text-method-error":
+		return c14FaultyText{}, true
+	case "kind":
+		return make(chan int), true
+	case "float":
+		return math.Inf(1), true
+	case "number":
+		return json.Number("1e"), true
+	}
+	return nil, false
+}
+
+func c14Fault(c *Ctx, fv flagsVec) {
+	k := c14Case{Kind: "fault", Num: fv.Fault + "/" + fv.Place, Flags: fv.Append}
+	x, ok := c14FaultValue(fv.Fault)
+	if !ok {
+		c.SpecError("C14", "JsonFlags.tla: a fault the harness does not know", fv)
+		return
+	}
+	var v any
+	switch fv.Place {
+	case "top":
+		v = x
+	case "field":
+		v = struct {
+			A int `json:"a"`
+			F any `json:"f"`
+			Z string
+		}{1, x, "z"}
+	case "element":
+		v = []any{1, x, "z"}
+	case "map-value":
+		v = map[string]any{"a": 1, "m": x, "z": "z"}
+	case "pointer":
+		v = &struct{ P *any }{&x}
+	case "interface":
+		v = []any{map[string]any{"i": &x}}
+	default:
+		c.SpecError("C14", "JsonFlags.tla: a place the harness does not know", fv)
+		return
+	}
+	// REF: with the default flags the specification's verdict is encoding/json's
+	_, serr := stdjson.Marshal(v)
+	wantDefault := fv.Fault != "none"
+	if (serr != nil) != wantDefault {
+		c.SpecError("C14", fmt.Sprintf("JsonFlags.tla says a value with fault %q fails under the default flags, encoding/json: %v", fv.Fault, serr), fv)
+		return
+	}
+	var fl json.AppendFlags
+	for _, a := range fv.Append {
+		fl |= appendFlagBits[a]
+	}
+	var out []byte
+	var err error
+	c.Eval(1)
+	if p := protect(func() { out, err = json.Append(nil, v, fl) }); p != "" {
+		c.Diverge("C14", "json.Append(a value with one fault)", "an error at worst", p, "", k)
+		return
+	}
+	if !fv.InDomain {
+		return // TrustRawMessage on a raw message that is not JSON: outside the property
+	}
+	if (err != nil) != fv.Fails {
+		c.Diverge("C14", "json.Append(a value with one fault)", fmt.Sprintf("fails=%v (fault %s as %s under %v)", fv.Fails, fv.Fault, fv.Place, fv.Append),
+			fmt.Sprintf("err=%v out=%s", err, clipS(string(out))), "", k)
+		return
+	}
+	if err == nil && !stdjson.Valid(out) {
+		c.Diverge("C14", "json.Append(a value with one fault)", "valid JSON", clipS(string(out)), "", k)
+	}
+}
+
 func c14AfterFailures(c *Ctx) {
 	c14ErrorParity(c)
 	bad := json.RawMessage(`{"broken`)
@@ -557,7 +649,13 @@ func c14Vector(c *Ctx, raw stdjson.RawMessage) {
 		return
 	}
 	var fv flagsVec
-	if stdjson.Unmarshal(raw, &fv) == nil && fv.Cls != "" {
+	if stdjson.Unmarshal(raw, &fv) == nil && fv.Fault != "" {
+		c.Nontrivial()
+		c.Case()
+		c14Fault(c, fv)
+		return
+	}
+	if fv.Cls != "" {
 		c.Nontrivial()
 		for _, num := range numClassReps[fv.Cls] {
 			c.Case()
@@ -616,6 +714,19 @@ func c14Replay(c *Ctx, raw stdjson.RawMessage) {
 	}
 	if k.Kind == "number" {
 		c14Number(c, k)
+		return
+	}
+	if k.Kind == "fault" {
+		var fv flagsVec
+		fv.Fault, fv.Place, _ = strings.Cut(k.Num, "/")
+		fv.Append = k.Flags
+		has := false
+		for _, a := range k.Flags {
+			has = has || a == "TrustRawMessage"
+		}
+		fv.Fails = fv.Fault != "none" && !(fv.Fault == "raw" && has)
+		fv.InDomain = !(fv.Fault == "raw" && has)
+		c14Fault(c, fv)
 		return
 	}
 	if k.Kind == "afterfailure" || k.Kind == "parity" {
